@@ -138,23 +138,31 @@ DEFOP(twinprint) {
 // ------------------------------------------------------------------ C16 patch assembly
 static MVal *mkobj() { return mv_new(T_OBJECT); }
 static void put(MVal *o, const std::string &k, MVal *v) { v->keystate = K_KNOWN; v->key = k; mv_add_kid(o, v, o->kids.size()); }
-static bool doc_ok_for_patch(const MVal *m) {  // distinct keys per object, no references/raw
-    if (m->refkind != R_NONE || m->type == T_RAW || m->type == T_INVALID) return false;
+static bool doc_ok_for_patch(const MVal *m, bool allow_refs = false) {  // distinct keys per object, no raw; reference nodes only on request
+    if ((m->refkind != R_NONE && !allow_refs) || m->type == T_RAW || m->type == T_INVALID) return false;
+    if (m->refkind == R_CHILD) return false;
     if (m->type == T_NUMBER && !std::isfinite(m->num)) return false;
-    if (m->type == T_OBJECT) {
-        for (size_t i = 0; i < m->kids.size(); i++) {
-            if (m->kids[i]->keystate != K_KNOWN) return false;
-            for (size_t j = 0; j < i; j++) if (m->kids[i]->key == m->kids[j]->key) return false;
+    auto kids = view_kids(m);
+    if (view_type(m) == T_OBJECT) {
+        for (size_t i = 0; i < kids.size(); i++) {
+            if (kids[i]->keystate != K_KNOWN) return false;
+            for (size_t j = 0; j < i; j++) if (kids[i]->key == kids[j]->key) return false;
         }
     }
-    for (const MVal *k : m->kids) if (!doc_ok_for_patch(k)) return false;
+    for (const MVal *k : kids) if (!doc_ok_for_patch(k, allow_refs)) return false;
     return true;
+}
+static bool has_ref_nodes(MVal *m) {
+    std::vector<MVal *> all;
+    mv_collect(m, all);
+    for (MVal *x : all) if (x->refkind != R_NONE) return true;
+    return false;
 }
 DEFOP(pop) {
     // a0 doc slot, a1 kind, a2 path selector, a3 from selector, a4 value seed, a5 tweak
     if (!w.pending_patch) {
         int s = w.live_slot(st.A(0));
-        if (s < 0 || !w.movable_root(w.slots[s]) || !doc_ok_for_patch(w.slots[s])) { w.noop(st, "no patchable document"); return; }
+        if (s < 0 || !w.movable_root(w.slots[s]) || !doc_ok_for_patch(w.slots[s], true)) { w.noop(st, "no patchable document"); return; }
         w.pending_slot = s;
         w.pending_patch = mv_new(T_ARRAY);
         w.pending_ref = mv_clone_value(w.slots[s]);
@@ -165,6 +173,8 @@ DEFOP(pop) {
     ptr_enumerate(w.pending_ref, ptrs);
     int kind = (int)((uint64_t)st.A(1) % 6);  // add remove replace test copy move
     uint64_t tweak = (uint64_t)st.A(5);
+    // a document that contains reference nodes is only read: a patch must not write into memory the document borrows
+    if (has_ref_nodes(w.slots[w.pending_slot])) { kind = 3; w.stats.probes["patch_on_document_with_references"]++; }
     Rng vr((uint64_t)st.A(4));
     GenOpts go = profile_opts(3); go.max_depth = 2;
     auto pick_existing = [&](int64_t sel, bool allow_root) -> std::string {
@@ -231,6 +241,21 @@ DEFOP(pop) {
             break;
         }
     }
+    if ((tweak % 29) == 0 && !path.empty()) {
+        // an index far beyond any array: 2^32 + i, 2^64 + i (legal tokens, designate nothing)
+        size_t slash = path.rfind('/');
+        std::string last = path.substr(slash + 1);
+        bool digits = !last.empty() && last.size() < 4;
+        for (char c : last) if (c < '0' || c > '9') digits = false;
+        if (digits) {
+            static const char *base[] = {"429496729", "1844674407370955161", "214748364"};
+            std::string huge = std::string(base[(tweak / 29) % 3]) + std::to_string(6 + atoi(last.c_str()) % 4);
+            if ((tweak / 29) % 3 == 0) huge = std::to_string(4294967296ull + (unsigned long long)atoi(last.c_str()));
+            path = path.substr(0, slash + 1) + huge;
+            for (MVal *k : op->kids) if (k->key == "path") k->str = path;
+            w.stats.probes["patch_huge_index"]++;
+        }
+    }
     if ((tweak % 17) == 0) {  // missing member
         size_t victim = (size_t)(tweak / 17) % op->kids.size();
         MVal *v = op->kids[victim];
@@ -286,7 +311,9 @@ DEFOP(patch_apply) {
     if (!w.pending_patch) { w.noop(st, "no pending patch"); return; }
     int s = w.pending_slot;
     MVal *doc = (s >= 0) ? w.slots[s] : nullptr;
-    if (!doc || !w.movable_root(doc) || !doc_ok_for_patch(doc)) { w.drop_pending(); w.noop(st, "document gone"); return; }
+    if (!doc || !w.movable_root(doc) || !doc_ok_for_patch(doc, true)) { w.drop_pending(); w.noop(st, "document gone"); return; }
+    bool doc_has_refs = has_ref_nodes(doc);
+    if (doc_has_refs) for (MVal *op : w.pending_patch->kids) { bool test_only = false; if (op->type == T_OBJECT) for (MVal *k : op->kids) if (k->key == "op" && k->type == T_STRING && k->str == "test") test_only = true; if (!test_only || w.pending_corrupt) { w.drop_pending(); w.noop(st, "only test patches on documents with references"); return; } }
     struct Drop { World &w; ~Drop() { w.drop_pending(); } } dp{w};
     w.touch(s);
     w.mark_utils(s);
@@ -352,6 +379,12 @@ DEFOP(patch_apply) {
         } else w.stats.probes["patch_failed_as_predicted"]++;
     } else w.stats.probes["patch_corrupt_survived"]++;
     // values adopted from here on (the library is documented non-atomic on failure; member order is free)
+    if (doc_has_refs) {  // read-only patch: the model (with its references) stays; only member order may have changed
+        std::string pw;
+        if (!adopt_permutation(doc, pw)) { w.mismatch("patch-wellformed", "document after a test-only patch: " + pw); return; }
+        w.log.add("patch_apply (document with references) status " + I(status) + " ref " + B(ref_ok));
+        return;
+    }
     if (!readopt_slot(w, s, doc->c, ww)) { w.mismatch("patch-wellformed", "patched document unreadable: " + ww); return; }
     w.log.add("patch_apply status " + I(status) + " ref " + B(ref_ok) + (corrupt ? " (corrupt patch)" : "") + " -> " + mv_dump(w.slots[s], 120));
 }
